@@ -166,6 +166,13 @@ def action_kind(a):
     return k if k in ACTION_KINDS else None
 
 
+def _truth(x):
+    """Truth value of a flag; an observer that raised is neither True nor False."""
+    if isinstance(x, tuple) and x and x[0] == "raised":
+        return None
+    return bool(x)
+
+
 def observers(ctx, sched):
     """Read every observer; an exception is a failure of the property that owns
     the observer."""
@@ -214,9 +221,9 @@ def drive(ctx, sched, mon, P, passes_requested, opts):
         ctx.require(sym_and(ob["n"] == 0, ob["r"] == 0), "C08.initial", soft=True)
         ctx.require(ob["max_n"] is None if online else ob["max_n"] == N, "C08.max_n", soft=True)
     if ctx.is_fatal("C09.is_running"):
-        ctx.require(ob["is_running"] is False, "C09.is_running", {"when": "before first next()"}, soft=True)
+        ctx.require(_truth(ob["is_running"]) is False, "C09.is_running", {"when": "before first next()"}, soft=True)
     if ctx.is_fatal("C09.is_exhausted"):
-        ctx.require(ob["is_exhausted"] is False, "C09.is_exhausted", {"when": "before first next()"}, soft=True)
+        ctx.require(_truth(ob["is_exhausted"]) is False, "C09.is_exhausted", {"when": "before first next()"}, soft=True)
     q0 = query_storage(ctx, sched, "before")
     ctx.trace(("uses0", tuple(sorted((k, str(v)) for k, v in q0.items()))))
 
@@ -305,12 +312,12 @@ def drive(ctx, sched, mon, P, passes_requested, opts):
             else:
                 ctx.require(ob["max_n"] is None, "C08.max_n", soft=True)
         if ctx.is_fatal("C09.is_running"):
-            ctx.require(ob["is_running"] is True, "C09.is_running",
+            ctx.require(_truth(ob["is_running"]) is True, "C09.is_running",
                         {"when": "after %d actions" % count}, soft=True)
         if ctx.is_fatal("C09.is_exhausted"):
             final = (permitted == 0 and kind == "EndForward") or \
                     (permitted == 1 and kind == "EndReverse")
-            ctx.require(ob["is_exhausted"] is final, "C09.is_exhausted",
+            ctx.require(_truth(ob["is_exhausted"]) is final, "C09.is_exhausted",
                         {"when": "after %s (action %d)" % (kind, count), "expected": final,
                          "got": ob["is_exhausted"]}, soft=True)
         if ctx.is_fatal("C11.raises"):
@@ -319,7 +326,7 @@ def drive(ctx, sched, mon, P, passes_requested, opts):
             if ctx.is_fatal("C11.underreport"):
                 for st in (RAM, DISK):
                     if mon.touched[st]:
-                        ctx.require(qd.get(st) is True or qd.get(st) == 1, "C11.underreport",
+                        ctx.require(_truth(qd.get(st)) is True, "C11.underreport",
                                     {"storage": st, "when": "after action %d" % count,
                                      "answer": repr(qd.get(st))}, soft=True)
         if target == 0 and kind == "EndForward":
@@ -346,15 +353,15 @@ def drive(ctx, sched, mon, P, passes_requested, opts):
                 break
         ob = observers(ctx, sched)
         if ctx.is_fatal("C09.is_exhausted"):
-            ctx.require(ob["is_exhausted"] is True, "C09.is_exhausted", {"when": "after StopIteration"}, soft=True)
+            ctx.require(_truth(ob["is_exhausted"]) is True, "C09.is_exhausted", {"when": "after StopIteration"}, soft=True)
     q1 = query_storage(ctx, sched, "after")
     ctx.trace(("uses1", tuple(sorted((k, str(v)) for k, v in q1.items()))))
     if ctx.is_fatal("C11.underreport"):
         for st in (RAM, DISK):
             if mon.touched[st]:
-                ctx.require(q0.get(st) is True or q0.get(st) == 1, "C11.underreport",
+                ctx.require(_truth(q0.get(st)) is True, "C11.underreport",
                             {"storage": st, "when": "before", "answer": repr(q0.get(st))}, soft=True)
-                ctx.require(q1.get(st) is True or q1.get(st) == 1, "C11.underreport",
+                ctx.require(_truth(q1.get(st)) is True, "C11.underreport",
                             {"storage": st, "when": "after", "answer": repr(q1.get(st))}, soft=True)
     # ---- repeated passes are exact repeats (C09) --------------------------
     if ctx.is_fatal("C09.repeat") and len(pass_logs) > 2:
